@@ -169,12 +169,15 @@ def build_world(case, audio_root: Path):
         if k == "user":
             o = data.User(uuid=u, **scalars(data.User, i, pat))
         elif k == "tag":
-            o = data.Tag(term=data.term_from_key("key_" + i), value=STRS[_h(i) % len(STRS)] + i)
-            rev[("key_" + i, o.value)] = i
+            # distinct tags that share a key or a value with another tag (the registry keys tags by (label, value))
+            n = int("".join(ch for ch in i if ch.isdigit()) or 0)
+            tkey, tval = "key_" + "abbca"[n % 5] + str(n // 5), ["v one", "v one", "välue 2", "v one", "välue 2"][n % 5]
+            o = data.Tag(term=data.term_from_key(tkey), value=tval)
+            assert (tkey, tval) not in rev, "tag catalogue must be injective"
+            rev[(tkey, tval)] = i
         elif k == "recording":
-            sub = d.get("dir", "")
             base = audio_root if place == "inside" else audio_root.parent / "elsewhere"
-            p = base / sub / d.get("file", f"{i} rec.wav")
+            p = base.joinpath(*case.get("dir", [])) / (i + "_" + case.get("file", "rec.wav"))
             kw = scalars(data.Recording, i, pat, skip=("path", "tags", "notes", "owners"))
             kw.setdefault("duration", 10.0); kw.setdefault("channels", 1); kw.setdefault("samplerate", 8000)
             o = data.Recording(uuid=u, path=p, tags=[objs[t] for t in d["tags"]],
@@ -428,3 +431,189 @@ def run_cycles(case, workdir: Path):
         return {"cycles": cycles}
     finally:
         shutil.rmtree(tmp, ignore_errors=True)
+
+
+def recordings_in(obj, seen=None, out=None):
+    """Every Recording instance reachable from a loaded object (each occurrence, not deduplicated)."""
+    out = [] if out is None else out
+    if isinstance(obj, data.Recording):
+        out.append(obj)
+        return out
+    if isinstance(obj, BaseModel):
+        for f in type(obj).model_fields:
+            recordings_in(getattr(obj, f), seen, out)
+    elif isinstance(obj, (list, tuple)):
+        for x in obj:
+            recordings_in(x, seen, out)
+    return out
+
+
+def comps(p):
+    return [str(x) for x in Path(p).parts]
+
+
+def run_paths(case, workdir: Path):
+    """C18 observation: save under A, inspect stored paths, load under B and under no directory."""
+    tmp = Path(tempfile.mkdtemp(prefix="aoefp_", dir=str(workdir)))
+    try:
+        A = tmp / "audio dir A"
+        B = tmp / "moved" / "audio B"
+        root, rev, recs = build_world(case, A)
+        mode = case["audio"]
+        adir = {"none": None, "str": str(A), "path": A}[mode]
+        bdir = {"none": None, "str": str(B), "path": B}[mode]
+        f = tmp / "out" / "doc.json"
+        saved, _ = outcome_of(lambda: io.save(root, f, audio_dir=adir))
+        out = {"saved": saved, "file_exists": f.exists(), "loaded": "", "loadedN": "", "A": comps(A), "B": comps(B), "recs": []}
+        table = {str(r.uuid): {"id": rev[str(r.uuid)], "orig": comps(r.path), "stored": [""], "atB": [""], "atNone": [""], "count": 0}
+                 for r in recs}
+        if saved == "":
+            d = json.loads(f.read_text())["data"]
+            for r in d.get("recordings") or []:
+                if r["uuid"] in table:
+                    table[r["uuid"]]["stored"] = comps(r["path"])
+            if mode != "none":
+                out["loaded"], objB = outcome_of(lambda: io.load(f, audio_dir=bdir))
+                if out["loaded"] == "":
+                    seen = {}
+                    for r in recordings_in(objB):
+                        seen.setdefault(str(r.uuid), set()).add(tuple(comps(r.path)))
+                    for u, ps in seen.items():
+                        if u in table:
+                            table[u]["atB"] = list(sorted(ps)[0])
+                            table[u]["count"] = len(ps)
+            out["loadedN"], objN = outcome_of(lambda: io.load(f))
+            if out["loadedN"] == "":
+                seen = {}
+                for r in recordings_in(objN):
+                    seen.setdefault(str(r.uuid), set()).add(tuple(comps(r.path)))
+                for u, ps in seen.items():
+                    if u in table:
+                        table[u]["atNone"] = list(sorted(ps)[0])
+                        if mode == "none":
+                            table[u]["count"] = len(ps)
+        out["recs"] = [table[k] for k in sorted(table, key=lambda u: table[u]["id"])]
+        return out
+    finally:
+        shutil.rmtree(tmp, ignore_errors=True)
+
+
+# ----------------------------------------------------------------------------- random worlds (larger than TLC enumerates)
+def _children(d):
+    k = d["kind"]
+    nb = lambda notes: [u for n in notes for u in n["by"]]
+    if k in ("user", "tag"):
+        return []
+    if k == "recording":
+        return d["tags"] + nb(d["notes"]) + d["owners"]
+    if k in ("clip", "sound_event"):
+        return [d["recording"]]
+    if k == "sequence":
+        return d["parent"] + d["sound_events"]
+    if k == "se_ann":
+        return [d["sound_event"]] + nb(d["notes"]) + d["tags"] + d["by"]
+    if k == "seq_ann":
+        return [d["sequence"]] + nb(d["notes"]) + d["tags"] + d["by"]
+    if k == "clip_ann":
+        return [d["clip"]] + d["tags"] + d["sound_events"] + d["sequences"] + nb(d["notes"])
+    if k in ("se_pred",):
+        return [d["sound_event"]] + d["tags"]
+    if k == "seq_pred":
+        return [d["sequence"]] + d["tags"]
+    if k == "clip_pred":
+        return [d["clip"]] + d["sound_events"] + d["sequences"] + d["tags"]
+    if k == "match":
+        return d["source"] + d["target"]
+    if k == "clip_eval":
+        return [d["annotations"], d["predictions"]] + d["matches"]
+    if k == "task":
+        return [u for b in d["badges"] for u in b["owner"]] + [d["clip"]]
+    raise ValueError(k)
+
+
+def random_world(rng, ctype):
+    """A random object graph in the format of Aoef!World (only reachable objects are listed)."""
+    pick = lambda xs, lo, hi: rng.sample(xs, min(len(xs), rng.randint(lo, hi))) if xs else []
+    one = lambda xs: [rng.choice(xs)] if xs and rng.random() < 0.6 else []
+    users = [f"u{i}" for i in range(rng.randint(0, 4))]
+    tags = [f"t{i}" for i in range(rng.randint(0, 7))]
+    notes = lambda: [{"by": one(users)} for _ in range(rng.choice([0, 0, 1, 2]))]
+    O = []
+    O += [{"id": u, "kind": "user"} for u in users] + [{"id": t, "kind": "tag"} for t in tags]
+    recs = [f"r{i}" for i in range(rng.randint(1, 3))]
+    O += [{"id": r, "kind": "recording", "tags": pick(tags, 0, 3), "notes": notes(), "owners": pick(users, 0, 2)} for r in recs]
+    clips = [f"c{i}" for i in range(rng.randint(1, 4))]
+    O += [{"id": c, "kind": "clip", "recording": rng.choice(recs)} for c in clips]
+    ses = [f"se{i}" for i in range(rng.randint(0, 8))]
+    O += [{"id": s, "kind": "sound_event", "recording": rng.choice(recs)} for s in ses]
+    seqs = []
+    for i in range(rng.randint(0, 5)):
+        O.append({"id": f"q{i}", "kind": "sequence", "parent": one(seqs), "sound_events": pick(ses, 0, 3)})
+        seqs.append(f"q{i}")
+    seas = [f"sea{i}" for i in range(rng.randint(0, min(6, len(ses) * 2)))]
+    O += [{"id": a, "kind": "se_ann", "sound_event": rng.choice(ses), "notes": notes(), "tags": pick(tags, 0, 3), "by": one(users)} for a in seas]
+    sqas = [f"sqa{i}" for i in range(rng.randint(0, 3) if seqs else 0)]
+    O += [{"id": a, "kind": "seq_ann", "sequence": rng.choice(seqs), "notes": notes(), "tags": pick(tags, 0, 2), "by": one(users)} for a in sqas]
+    seps = [f"sep{i}" for i in range(rng.randint(0, min(6, len(ses) * 2)))]
+    O += [{"id": p, "kind": "se_pred", "sound_event": rng.choice(ses), "tags": pick(tags, 0, 3)} for p in seps]
+    sqps = [f"sqp{i}" for i in range(rng.randint(0, 3) if seqs else 0)]
+    O += [{"id": p, "kind": "seq_pred", "sequence": rng.choice(seqs), "tags": pick(tags, 0, 2)} for p in sqps]
+    # each clip gets one clip annotation and one clip prediction; annotations/predictions are dealt out without repetition
+    rng.shuffle(seas); rng.shuffle(seps)
+    cas, cps, ces, ms = [], [], [], []
+    for n, c in enumerate(clips):
+        a_se = [seas.pop() for _ in range(min(len(seas), rng.randint(0, 3)))]
+        p_se = [seps.pop() for _ in range(min(len(seps), rng.randint(0, 3)))]
+        O.append({"id": f"ca{n}", "kind": "clip_ann", "clip": c, "tags": pick(tags, 0, 2), "sound_events": a_se,
+                  "sequences": pick(sqas, 0, 2), "notes": notes()})
+        O.append({"id": f"cp{n}", "kind": "clip_pred", "clip": c, "sound_events": p_se, "sequences": pick(sqps, 0, 2),
+                  "tags": pick(tags, 0, 2)})
+        cas.append(f"ca{n}"); cps.append(f"cp{n}")
+        mm, aa, pp = [], list(a_se), list(p_se)
+        rng.shuffle(aa); rng.shuffle(pp)
+        while aa or pp:
+            if aa and pp and rng.random() < 0.6:
+                src, tgt = [pp.pop()], [aa.pop()]
+            elif pp and (not aa or rng.random() < 0.5):
+                src, tgt = [pp.pop()], []
+            else:
+                src, tgt = [], [aa.pop()]
+            mid = f"m{len(ms)}"
+            ms.append(mid); mm.append(mid)
+            O.append({"id": mid, "kind": "match", "source": src, "target": tgt})
+        O.append({"id": f"ce{n}", "kind": "clip_eval", "annotations": f"ca{n}", "predictions": f"cp{n}", "matches": mm})
+        ces.append(f"ce{n}")
+    ks = []
+    for n, c in enumerate(clips):
+        O.append({"id": f"k{n}", "kind": "task", "clip": c,
+                  "badges": [{"owner": one(users)} for _ in range(rng.choice([0, 1, 2]))]})
+        ks.append(f"k{n}")
+    if ctype in ("recording_set", "dataset"):
+        roots = {"recordings": pick(recs, 1, 3)}
+    elif ctype == "annotation_set":
+        roots = {"clip_annotations": pick(cas, 0, 4)}
+    elif ctype == "annotation_project":
+        roots = {"clip_annotations": pick(cas, 0, 4), "annotation_tags": pick(tags, 0, 3), "tasks": ks}
+    elif ctype == "evaluation_set":
+        roots = {"clip_annotations": pick(cas, 0, 4), "evaluation_tags": pick(tags, 0, 3)}
+    elif ctype in ("prediction_set", "model_run"):
+        roots = {"clip_predictions": pick(cps, 0, 4)}
+    else:
+        roots = {"clip_evaluations": pick(ces, 0, 4)}
+    byid = {d["id"]: d for d in O}
+    seen, front = set(), [x for v in roots.values() for x in v]
+    while front:
+        x = front.pop()
+        if x in seen:
+            continue
+        seen.add(x)
+        front += _children(byid[x])
+    return {"ctype": ctype, "objs": [d for d in O if d["id"] in seen], "roots": roots, "sw": ["random"],
+            "pattern": rng.choice(["min", "max", "alt"]), "audio": rng.choice(["none", "str", "path"]),
+            "cycles": rng.choice([1, 2, 3]), "place": "inside",
+            "dir": rng.choice([[], ["d1"], ["sub dir", "ünï"]]), "file": rng.choice(["a.wav", "with space.wav", "üñí ©.wav"])}
+
+
+def random_worlds(rng, n):
+    for _ in range(n):
+        yield random_world(rng, rng.choice(list(CTYPE_CLASS)))
